@@ -7,7 +7,7 @@ namespace SfntV.Dsl
 theorem safe_lbracket : Safe (some 91) := safe_ascii 91 (by decide) (by decide) (by decide)
 
 /-- the first item of a contextual subtable -/
-theorem ctxSub_head (f : Font) (hf : FontOk f) (hk : NoKwNames f) (st : Subtable) (h : CtxSub f st)
+theorem ctxSub_head (f : Font) (hf : FontOk f) (st : Subtable) (h : CtxSub f st)
     (fuel : Nat) (hfu : tokCount (subP f st) + 2 < fuel) :
     (∀ line, ∃ t, (mkToks line (subP f st)).head? = some t ∧ [tHyphen].contains t.typ = false ∧
       [tEOL].contains t.typ = false) ∧
@@ -31,7 +31,7 @@ theorem ctxSub_head (f : Font) (hf : FontOk f) (hk : NoKwNames f) (st : Subtable
         simp [nextRune, render, Piece.rbs, a1]
       rw [this]; exact safe_space
   rcases h with ⟨rules, rfl, hok⟩ | ⟨cov, classes, rules, rfl, hok⟩ | ⟨input, acts, rfl, hok⟩
-  · obtain ⟨typ0, val0, R, heq, hnk, _⟩ := ctx1_branch f hf hk fuel ([], []) rules hok hfu
+  · obtain ⟨typ0, val0, R, heq, hnk, _⟩ := ctx1_branch f hf fuel ([], []) rules hok hfu
     refine key [.ws [a1 32]] typ0 val0 R heq (Or.inr rfl) ?_
     rcases hnk.1 with h | h | h <;> subst h <;> decide
   · have hsubeq : subP f (.ctx2 cov classes rules) = .ws [a1 32] ::
@@ -80,9 +80,9 @@ theorem classDefs_len (kw : List Nat) (wgs : List Nat → List Piece) : ∀ (gl 
     simp only [classDefsP, tokCount_append, tokCount, tk, List.length_cons]
     omega
 
-theorem ctxUnit_le (f : Font) (hf : FontOk f) (hk : NoKwNames f) (st : Subtable) (h : CtxSub f st) :
+theorem ctxUnit_le (f : Font) (hf : FontOk f) (st : Subtable) (h : CtxSub f st) :
     ctxSize [st] ≤ tokCount (subP f st) := by
-  have h1 := (ctxSub_head f hf hk st h (tokCount (subP f st) + 3) (by omega)).2.2
+  have h1 := (ctxSub_head f hf st h (tokCount (subP f st) + 3) (by omega)).2.2
   rcases h with ⟨_, rfl, _⟩ | ⟨cov, classes, rules, rfl, hok⟩ | ⟨_, _, rfl, _⟩
   · simpa [ctxSize] using h1
   · have hsubeq : subP f (.ctx2 cov classes rules) = .ws [a1 32] ::
@@ -97,20 +97,20 @@ theorem ctxUnit_le (f : Font) (hf : FontOk f) (hk : NoKwNames f) (st : Subtable)
 theorem ctxSize_cons (st : Subtable) (more : List Subtable) : ctxSize (st :: more) = ctxSize [st] + ctxSize more := by
   cases st <;> simp [ctxSize] <;> omega
 
-theorem ctxSize_le (f : Font) (hf : FontOk f) (hk : NoKwNames f) : ∀ (more : List Subtable), (∀ st ∈ more, CtxSub f st) →
+theorem ctxSize_le (f : Font) (hf : FontOk f) : ∀ (more : List Subtable), (∀ st ∈ more, CtxSub f st) →
     ctxSize more ≤ tokCount (more.flatMap fun st => orSep ++ subP f st) := by
   intro more
   induction more with
   | nil => intro _; simp [ctxSize]
   | cons st more ih =>
     intro h
-    have h1 := ctxUnit_le f hf hk st (h st (by simp))
+    have h1 := ctxUnit_le f hf st (h st (by simp))
     have h2 := ih (fun x hx => h x (by simp [hx]))
     rw [ctxSize_cons]
     simp only [List.flatMap_cons, tokCount_append]
     omega
 
-theorem ctx_body (f : Font) (hf : FontOk f) (hk : NoKwNames f) (typ : Nat) (l : Lookup) (h : LookupCtxOk f typ l)
+theorem ctx_body (f : Font) (hf : FontOk f) (typ : Nat) (l : Lookup) (h : LookupCtxOk f typ l)
     (F0 : Nat) (hF : tokCount (bodyP f l) + 4 ≤ F0) :
     (∃ ps, bodyP f l = tk tColon [58] :: ps) ∧ Frag (readSeqCtx f F0 typ) (bodyP f l) (normLookup l) LookStop Safe := by
   cases hs : l.subtables with
@@ -148,15 +148,15 @@ theorem ctx_body (f : Font) (hf : FontOk f) (hk : NoKwNames f) (typ : Nat) (l : 
         omega
     have hsz : ctxSize (st0 :: more) ≤ F0 := by
       rw [ctxSize_cons]
-      have h1 := ctxUnit_le f hf hk st0 (hsub st0 (by simp))
-      have h2 := ctxSize_le f hf hk more (fun st hst => hsub st (by simp [hst]))
+      have h1 := ctxUnit_le f hf st0 (hsub st0 (by simp))
+      have h2 := ctxSize_le f hf more (fun st hst => hsub st (by simp [hst]))
       omega
-    have hloop := frag_ctxLoop f hf hk F0 more st0 (F0 - ctxSize (st0 :: more)) []
+    have hloop := frag_ctxLoop f hf F0 more st0 (F0 - ctxSize (st0 :: more)) []
       (fun st hst => ⟨hsub st hst, hcnt st hst⟩)
     have hj : ctxSize (st0 :: more) + (F0 - ctxSize (st0 :: more)) = F0 := by omega
     rw [hj] at hloop
     have h4 : Gen.dslExplainFlagsC.length = 4 := by decide
-    obtain ⟨hhead, hsafe, _⟩ := ctxSub_head f hf hk st0 (hsub st0 (by simp)) F0 (hcnt st0 (by simp))
+    obtain ⟨hhead, hsafe, _⟩ := ctxSub_head f hf st0 (hsub st0 (by simp)) F0 (hcnt st0 (by simp))
     unfold readSeqCtx
     refine frag_bind (frag_header l.flags h.flags F0 (by omega)) ?_ (fun nx _ => by
         rw [List.append_assoc]; exact hsafe _ nx) (fun line t _ => ?_)
@@ -189,14 +189,14 @@ theorem gpos7_dispatch (f : Font) (fuel : Nat) (t : Tok) (n : Nat) (acc : List L
   rw [bind_run, h]
   simp [ht, isIdent, hb, kwGSUB, kwGPOS, kwPOS, tIdentifier, tEOF, tError, tSemicolon, tEOL]
 
-theorem item_gsub5 (f : Font) (hf : FontOk f) (hk : NoKwNames f) (l : Lookup) (h : LookupCtxOk f 5 l) (F0 : Nat)
+theorem item_gsub5 (f : Font) (hf : FontOk f) (l : Lookup) (h : LookupCtxOk f 5 l) (F0 : Nat)
     (hF : tokCount (bodyP f l) + 4 ≤ F0) : LookItemOk f F0 l := by
-  obtain ⟨hc, hfr⟩ := ctx_body f hf hk 5 l h F0 hF
+  obtain ⟨hc, hfr⟩ := ctx_body f hf 5 l h F0 hF
   exact ⟨readSeqCtx f F0 5, by rw [h.typ]; exact gsub_kw_ok 5 (by decide), by rw [h.typ]; exact gsub5_dispatch f _, hc, hfr⟩
 
-theorem item_gpos7 (f : Font) (hf : FontOk f) (hk : NoKwNames f) (l : Lookup) (h : LookupCtxOk f 7 l) (F0 : Nat)
+theorem item_gpos7 (f : Font) (hf : FontOk f) (l : Lookup) (h : LookupCtxOk f 7 l) (F0 : Nat)
     (hF : tokCount (bodyP f l) + 4 ≤ F0) : PosItem2 f F0 l := by
-  obtain ⟨hc, hfr⟩ := ctx_body f hf hk 7 l h F0 hF
+  obtain ⟨hc, hfr⟩ := ctx_body f hf 7 l h F0 hF
   exact ⟨readSeqCtx f F0 7, by rw [h.typ]; exact pos_kw_ok 7 (by decide), by rw [h.typ]; exact gpos7_dispatch f _, hc, Or.inl hfr⟩
 
 end SfntV.Dsl
